@@ -115,6 +115,11 @@ C6(p) == Obj("C", "tns", <<F("x", Attr(Prim(p)), 0, 1), F("y", Prim("Unicode"), 
 T6 == UNION {{Case("T6", "wrapped", <<F("c", C6(p), 0, 1)>>, <<v>>, <<C6(p)>>, <<v>>) :
                  v \in {ObjV("C", <<x, y, w>>) : x \in LeafChoices(p, <<0, 1>>), y \in {Nil, Leaf("hello")}, w \in {Nil, Leaf("7")}}} :
                    p \in {"Integer", "Unicode", "Boolean", "Date", "Double", "Uuid"}}
+\* ... an attribute that happens to be called href (SOAP 1.1 multi-reference encoding gives that name a meaning only
+\* when the envelope also carries id attributes) next to a child element
+L6 == Obj("Link", "tns", <<F("href", Attr(Prim("Unicode")), 0, 1), F("title", Prim("Unicode"), 0, 1)>>)
+T6b == {Case("T6", "wrapped", <<F("l", L6, 0, 1)>>, <<v>>, <<L6>>, <<v>>) :
+          v \in {ObjV("Link", <<h, t>>) : h \in {Nil, Leaf("hello"), Leaf("x < y & z")}, t \in {Nil, Leaf("hello")}}}
 \* T7: several arguments, several return values, no return value, no argument
 T7 == {Case("T7", "wrapped", <<F("a", Prim("Integer"), 0, 1), F("b", Prim("Unicode"), 0, 1), F("c", Prim("Boolean"), 0, 1)>>, <<a, b, c>>,
             <<Prim("Unicode"), Prim("Integer")>>, <<b, a>>) :
@@ -140,5 +145,5 @@ T9 == {[Case("T9", "wrapped", <<F("a", Prim("Integer"), 0, 1)>>, <<Leaf("5")>>, 
           EXCEPT !.inh = <<H1, H2>>, !.inhvals = <<i1, i2>>, !.outh = <<H1, H2>>, !.outhvals = <<o1, o2>>] :
              i1 \in H1Vals, i2 \in H2Vals, o1 \in H1Vals, o2 \in H2Vals}
 
-Cases == T9 \cup T1 \cup T2 \cup T3 \cup T4 \cup T5 \cup T6 \cup T7 \cup T8
+Cases == T9 \cup T1 \cup T2 \cup T3 \cup T4 \cup T5 \cup T6 \cup T6b \cup T7 \cup T8
 =============================================================================
